@@ -1025,3 +1025,88 @@ Proof.
   - rewrite (nth_error_nth' res VNone) by lia. f_equal. rewrite E2, !nth_set_nth, !length_set_nth.
     rewrite Nat.eqb_refl. replace (jc <? length un1)%nat with true by (symmetry; apply Nat.ltb_lt; lia). reflexivity.
 Qed.
+
+(* ====================================================================== *)
+(* the context of a request                                               *)
+(* ====================================================================== *)
+Lemma getitem_xclass_ctx ds c idx dr s rest :
+  getitem_xclass ds c idx dr = Ok (s, rest) ->
+  s_ctx s = if with_ctx c then [LdX (Z.of_nat idx); LdClass (Z.of_nat idx)] else [].
+Proof.
+  unfold getitem_xclass.
+  destruct dr as [|[u|? ?|? ?] dr1]; try discriminate.
+  destruct (Qltb (total_p c) u).
+  - destruct (to_one_hot_vector (ds_cls ds idx) (ds_ncls ds)); [|discriminate].
+    intro H. inversion H; subst. reflexivity.
+  - destruct dr1 as [|[?|hi idx2|? ?] dr2]; try discriminate.
+    destruct (negb (hi =? Z.of_nat (ds_len ds))); [discriminate|].
+    destruct (to_one_hot_vector (ds_cls ds idx) (ds_ncls ds)); [|discriminate].
+    destruct (to_one_hot_vector (ds_cls ds (Z.to_nat idx2)) (ds_ncls ds)); [|discriminate].
+    destruct (if Qltb u (cutmix_p c) then cutmix_alpha c else mixup_alpha c); [|discriminate].
+    destruct dr2 as [|[?|? ?|a lamb] dr3]; try discriminate.
+    destruct (negb (Qeq_bool a q)); [discriminate|].
+    destruct (Qltb u (cutmix_p c)); [discriminate|].
+    destruct (match unify c with
+              | UNone => _ | UPadOrCutEnd => _ | UOther => _ end) as [x2u|e]; [|discriminate].
+    intro H. inversion H; subst. reflexivity.
+Qed.
+
+(* whatever was drawn: the only loads that can record into the request's context are loads of sample idx itself;
+   the partner is loaded with a context of its own *)
+Lemma ctx_describes_l ds c idx dr s rest :
+  getitem_xclass ds c idx dr = Ok (s, rest) -> ctx_describes idx s.
+Proof.
+  intro H. unfold ctx_describes. rewrite (getitem_xclass_ctx _ _ _ _ _ _ H).
+  destruct (with_ctx c); repeat constructor.
+Qed.
+
+Lemma run_fn_ctx ds c G idx f k r cs :
+  run_fn ds c G idx f k = Ok (r, cs) -> Forall (fun cl => ctx_describes idx (c_sample cl)) cs.
+Proof.
+  unfold run_fn. destruct f as [[| | |m]|]; try discriminate;
+    try (destruct (getitem_xclass ds c idx _) as [[s rest]|] eqn:E; [|discriminate]);
+    intro H; inversion H; subst; repeat constructor; simpl; eapply ctx_describes_l; eauto.
+Qed.
+
+Lemma run_fns_ctx ds c G idx : forall fs k items calls,
+  run_fns ds c G idx fs k = Ok (items, calls) -> Forall (fun cl => ctx_describes idx (c_sample cl)) calls.
+Proof.
+  induction fs as [|f fs IH]; intros k items calls; simpl.
+  - intro H. inversion H; subst. constructor.
+  - destruct (run_fn ds c G idx f k) as [[r cs]|] eqn:Er; [|discriminate].
+    destruct (run_fns ds c G idx fs (k + length cs)) as [[rs cs']|] eqn:Ers; [|discriminate].
+    intro H. inversion H; subst. apply Forall_app. split.
+    + eapply run_fn_ctx; eauto.
+    + eapply IH; eauto.
+Qed.
+
+Lemma request_ctx_describes_l ds c G toks idx vals calls :
+  mw_getitem ds c G toks idx = Ok (vals, calls) -> Forall (fun cl => ctx_describes idx (c_sample cl)) calls.
+Proof.
+  unfold mw_getitem. destruct (has_other toks); [discriminate|].
+  destruct (run_fns ds c G idx (map fst (plan toks)) 0) as [[items calls']|] eqn:Er; [|discriminate].
+  intro H. inversion H; subst. eapply run_fns_ctx; eauto.
+Qed.
+
+(* ====================================================================== *)
+(* the partner may be the sample itself: then the sample is returned      *)
+(* ====================================================================== *)
+Lemma blend_self w v : Forall2 Qeq (blend w v v) v.
+Proof. induction v as [|x v IH]; simpl; constructor; [ring|exact IH]. Qed.
+
+Lemma Forall2_Qeq_trans a b c : Forall2 Qeq a b -> Forall2 Qeq b c -> Forall2 Qeq a c.
+Proof.
+  intros H. revert c. induction H; intros c0 H2; inversion H2; subst; constructor.
+  - etransitivity; eauto.
+  - auto.
+Qed.
+
+Lemma self_partner_l ds c idx dr s rest w :
+  draws_ok dr -> getitem_xclass ds c idx dr = Ok (s, rest) -> s_mix s = Some (idx, w) ->
+  same_tensor (s_x s) (ds_x ds idx) /\ Forall2 Qeq (s_cls s) (label_vector ds idx).
+Proof.
+  intros Hd H Hm. pose proof (same_partner_weight_l _ _ _ _ _ _ Hd H) as Hs. rewrite Hm in Hs.
+  destruct Hs as [(Hp & Hw0 & Hw1 & Hsh & Hat & Hcls) _]. split.
+  - split; [exact Hsh|]. intros i Hin. rewrite Hsh in Hin. rewrite (Hat i Hin). simpl. rewrite Hin. ring.
+  - eapply Forall2_Qeq_trans; [exact Hcls|]. apply blend_self.
+Qed.
